@@ -81,6 +81,9 @@ def run(ctx):
                 ctx.count('harness_parse_error')
                 continue
             ctx.case((src, fin), nontrivial=True, sample={'sugar': src, 'plain': twin, 'fin': fin})
+            if a.get('raised') == 'Timeout' or b.get('raised') == 'Timeout':
+                ctx.count('analysis_timeout')
+                continue
             if 'raised' in b or 'refused_or_raised' in b:
                 ctx.count('twin_itself_fails')   # not this property's business (C06)
                 continue
